@@ -297,8 +297,16 @@ pub fn check_eqv(c: &EqvCase, ctx: &mut Ctx) -> CheckResult {
         let v = &vars[vars.len() - 1];
         let again = catch(|| run_solver(&v.ps, &v.st)).map_err(|p| format!("panic: {p}"))?;
         ensure!(same_out(&again, &outs[vars.len() - 1]), "two fresh solvers on identical data and settings disagree bitwise ({:?}/{} vs {:?}/{})", again.status, again.iterations, outs[vars.len() - 1].status, outs[vars.len() - 1].iterations);
+        // every other case repeats the solve with iterative refinement switched off (state that the refinement
+        // would otherwise mask must not leak from one solve into the next)
+        let mut st2 = v.st.clone();
+        let ir_off = v.ps.n % 2 == 1 && st2.iterative_refinement_enable;
+        if ir_off {
+            st2.iterative_refinement_enable = false;
+            ctx.label("twice-solve-without-refinement");
+        }
         let twice = catch(|| {
-            let mut solver = build_solver(&v.ps, &v.st);
+            let mut solver = build_solver(&v.ps, &st2);
             solver.solve();
             let first = collect(&solver, vec![]);
             solver.solve();
@@ -306,7 +314,7 @@ pub fn check_eqv(c: &EqvCase, ctx: &mut Ctx) -> CheckResult {
         })
         .map_err(|p| format!("panic on second solve(): {p}"))?;
         ensure!(same_out(&twice.0, &twice.1), "calling solve() twice on one solver gives different bits ({:?}/{} then {:?}/{})", twice.0.status, twice.0.iterations, twice.1.status, twice.1.iterations);
-        ensure!(same_out(&twice.0, &again), "first solve() differs from an independent solver");
+        ensure!(ir_off || same_out(&twice.0, &again), "first solve() differs from an independent solver");
     }
     // concurrent execution: every variant on its own thread, at the same time
     {
